@@ -60,6 +60,26 @@ CHECKS = {
   text="Merkle roots, branches (every index, every wrong leaf/index, single-bit tampers), duplicated-tail mutation reports, block validity under root/commitment/coinbase edits, BIP158 filters (match, decode, bytes equal to the reference), compact-block reconstruction over superset/shuffled/colliding pools, compact target encode/decode, retargeting and work are compared at run time with independent transcriptions of Core's integer arithmetic.",
   note="Trusted base: rv/ref/merkle.py, gcs.py, arith256.py self-tested on blocks 200000/481824, checkblock vectors, siphash.json, blockfilters.json and Core's arith_uint256/pow vectors. A generated block the reference holds valid but the library refuses is INCONCLUSIVE (the property says 'valid only if').",
   ref="DESIGN.md section 3 C17"),
+ "C06": dict(
+  technique="runtime monitoring: reference-decoder (differential) monitor for Base58Check, Bech32/Bech32m, segwit addresses, WIF, extended keys, silent-payment addresses and BIP21, exhaustive over witness version x program length x network, every single-character corruption of valid strings",
+  text="Every decode verdict of the library's text decoders is compared at run time with independent reference decoders (BIP173/BIP350 reference, big-integer Base58Check, Core-style address/WIF/xkey rules) on valid strings of every kind and network and on every single-character substitution, adjacent transposition, case flip and truncation of them; decode(encode(x)) == x, accepted strings re-encode to themselves, address <-> scriptPubKey are inverse on every addressable script type and future witness version, and no string is read as another network. The pure-Python RIPEMD160 is compared with hashlib and published digests.",
+  note="Trusted base: rv/ref/bech32.py, base58.py, addr.py (self-tested on BIP173/350, base58_encode_decode, key_io valid/invalid, BIP32 invalid keys, BIP352, RIPEMD-160 vectors). The library's surrounding-whitespace stripping convention is applied by the comparator too.",
+  ref="DESIGN.md section 3 C06"),
+ "C13": dict(
+  technique="runtime monitoring: reference-model monitor (independent BIP39 / Electrum / SLIP39 / GF(256) implementations, hashlib PBKDF2), every word substitution of generated sentences, share-subset enumeration",
+  text="Entropy round trips in all 12 word lists, sentence acceptance against the reference checksum for every single-word substitution, seeds and master keys against hashlib.pbkdf2_hmac + the BIP32 reference with NFKD-sensitive passphrases, Electrum version prefixes, SLIP39 splits (groups, thresholds, exponents, extendable) recovered from every qualifying subset in random order, refused one share short, and checked to lie on one GF(256) polynomial; BIP85 children against the BIP's HMAC.",
+  note="Trusted base: rv/ref/mnemonics.py, slip39.py, gf256.py, wordlists.py (self-tested on BIP39, SLIP39/Trezor, Electrum and BIP85 vectors; word lists copied into /verif/vectors). btclib's documented 512-bit entropy extension (48 words) is a statistic, outside the property's 128..256-bit quantifier.",
+  ref="DESIGN.md section 3 C13"),
+ "C16": dict(
+  technique="runtime monitoring: protocol-completion monitor over honest multi-party executions judged by independent references (BIP340 verifier, BIP327 KeyAgg/sign transcription, BIP352 sender/scanner, BIP324 xswiftec, BIP374 DLEQ), both arms",
+  text="MuSig2 sessions (1..5 signers, duplicates, permutations, plain and x-only tweak sequences, adaptor sessions, BIP373 PSBT roles ending in an engine-accepted spend), ECDH on catalogued and toy curves, ElligatorSwift, ECIES, DLEQ, Pedersen/Borromean and silent-payment sender/scanner flows (mixed inputs, repeated and labelled recipients, decoys, BIP375 roles) are executed end to end; every partial signature must verify, the aggregate must be a valid BIP340 signature for the reference-computed key, both parties must derive the reference secret, altered statements must fail, and every created output must be found with a key that opens it.",
+  note="Trusted base: rv/ref/keyagg.py, bip352.py, ellswift.py, dleq.py, bip340.py (self-tested on the BIP327/352/374/324 vector files). Adaptor sessions and ElligatorSwift on other curves have no published reference and are judged by completion/agreement only.",
+  ref="DESIGN.md section 3 C16"),
+ "C18": dict(
+  technique="runtime monitoring: invariant monitors on real serializations and end-to-end funded/signed flows, Fraction/Decimal reference arithmetic for fees and amounts",
+  text="Every reported size/weight/vsize/id of generated transactions and blocks (counts and lengths at every CompactSize boundary) is compared with len() of the real serialization and an independent stripped-size reader; the weight estimated before signing (with the sizer a caller would pass) is compared with the weight of the transaction signed by the library (grinding on and off); every build_psbt result must conserve value, pay at least ceil(rate x final vsize) after sign/finalize/extract, never create dust change and refuse insufficient inputs, with remainders aimed within +-2 sat of the dust and fee boundaries; fee_from_vsize, package_fee, dust_threshold, FeeRate and amount conversions are compared with exact Fraction/Decimal arithmetic.",
+  note="Trusted base: rv/ref/core.py transaction reader, Python's fractions/decimal, Core's GetDustThreshold formula written out in the check. Taproot script-path estimates use a caller-side sizer built from Descriptor.satisfy, as the library requires.",
+  ref="DESIGN.md section 3 C18"),
 }
 
 def main():
